@@ -83,6 +83,7 @@ type vfC15ClientSpec struct {
 	// "old-closed": it is half-closed and torn down afterwards). The judged burst comes after that,
 	// eligible(c, m) refers to the second, live connection.
 	Takeover string
+	Resub    bool // the last SUBSCRIBE packet replaces the QoS of a held filter
 }
 
 type vfC15Msg struct {
@@ -189,6 +190,32 @@ func vfC15GenCase(rt *rapid.T, withPolicies bool) vfC15Case {
 			take := rapid.IntRange(1, len(subs)).Draw(rt, "perPacket")
 			c.Packets = append(c.Packets, subs[:take])
 			subs = subs[take:]
+		}
+		if rapid.IntRange(0, 2).Draw(rt, "resubscribe?") == 0 {
+			// a last SUBSCRIBE that replaces a held filter's QoS by the other one (upgrade or
+			// downgrade), optionally in one list with a further filter; eligibility uses the current QoS
+			cur := map[string]byte{}
+			var held []string
+			for _, p := range c.Packets {
+				for _, s := range p {
+					if _, ok := cur[s.Filter]; !ok {
+						held = append(held, s.Filter)
+					}
+					cur[s.Filter] = s.QoS
+				}
+			}
+			f := rapid.SampledFrom(held).Draw(rt, "heldFilter")
+			pkt := []vfC15Sub{{Filter: f, QoS: 1 - cur[f]}}
+			if rapid.Bool().Draw(rt, "withNewFilter") {
+				nf := vfC15Sub{Filter: rapid.SampledFrom(hotFilters).Draw(rt, "filter"), QoS: byte(rapid.IntRange(0, 1).Draw(rt, "subQoS"))}
+				if rapid.Bool().Draw(rt, "newFirst") {
+					pkt = append([]vfC15Sub{nf}, pkt...)
+				} else {
+					pkt = append(pkt, nf)
+				}
+			}
+			c.Packets = append(c.Packets, pkt)
+			c.Resub = true
 		}
 		c.Leaves = n > 2 && rapid.IntRange(0, 9).Draw(rt, "leaves?") == 0
 		switch rapid.IntRange(0, 7).Draw(rt, "takeover?") {
@@ -500,6 +527,9 @@ func vfC15CountClasses(vf *vfCollector, k vfC15Case) {
 		}
 		if k.Clients[i].Takeover != "" {
 			vf.Class("client-after-persistent-session-takeover:" + k.Clients[i].Takeover)
+		}
+		if k.Clients[i].Resub {
+			vf.Class("client-resubscribed-held-filter-with-other-qos")
 		}
 		own := map[int]bool{}
 		for _, q := range k.subs(i) {
